@@ -2,6 +2,7 @@ CONSTANTS
   RATE = 8
   WIDTH = 12
   Mutants = {{}}
+  EncodeMutant = "none"
   ConfigSet = "quick"
 INIT Init
 NEXT Next
